@@ -36,7 +36,7 @@ CL_NAMES = [b"Content-Length"] * 8 + [b"content-length", b"CONTENT-LENGTH", b"Co
 LINE_ENDS = [CRLF] * 30 + [b"\n", b"\r", b"\r\r\n", b"\n\r", b"\r\n ", b"\r\n\t"]
 BENIGN = [b"Host: example.org", b"Accept: */*", b"User-Agent: verif/1", b"X-A: b", b"Cookie: a=b; c=d",
           b"X-Empty:", b"X-Latin: caf\xe9", b"Accept-Encoding: gzip, chunked", b"TE: trailers",
-          b"X-Long: " + b"v" * 300, b"Content-Type: text/plain", b"Expect: 100-continu",
+          b"X-Long: " + b"v" * 300, b"Content-Type: text/plain", b"Expect: 100-continu", b"Expect: 100-continue", b"Expect: 100-Continue",
           b"X-Fake-TE: Transfer-Encoding: chunked", b"X-Tab:\tv\t"]
 CONN = [b"Connection: keep-alive", b"Connection: close", b"Connection: Keep-Alive", b"Connection: TE",
         b"Connection: close, TE", b"Connection: x"]
